@@ -301,6 +301,83 @@ pub fn shard_run(tier: &str, seed: u64, shard: Shard) -> ShardOut {
             }
         }
     }
+    // ---- two allowed clients on ONE keep-alive connection (a pooling proxy): each is served as itself
+    if shard.mine(5) {
+        use crate::http::KeepAlive;
+        use std::time::Duration;
+        let (a, b) = (Rng::new(seed).fork(0x5C1).uuid(), Rng::new(seed).fork(0x5C2).uuid());
+        let allow: std::collections::HashSet<Uuid> = [a, b].into_iter().collect();
+        let mut targets: Vec<(String, String, Option<crate::net::Proc>, Option<SockServer>, Option<ScratchDir>)> = vec![];
+        if let Ok(srv) = SockServer::start(WebServer::new(Config::default().to_server(), Some(allow.clone()), InMemoryStorage::new()), 2) {
+            let addr = srv.addr.clone();
+            targets.push(("an in-process HttpServer with an allow-list".into(), addr, None, Some(srv), None));
+        }
+        if let (Some(bin), Some(port)) = (crate::net::server_bin(), crate::net::free_port()) {
+            let d = ScratchDir::new("c09ka");
+            let addr = format!("127.0.0.1:{port}");
+            let args: Vec<String> = vec!["--listen".into(), addr.clone(), "--data-dir".into(), d.path().to_string_lossy().to_string(), "--allow-client-id".into(), a.to_string(), "--allow-client-id".into(), b.to_string()];
+            if let Ok(p) = crate::net::Proc::start(&bin, &args, &[], &[addr.clone()], Duration::from_secs(20)) {
+                targets.push(("the real executable with an allow-list".into(), addr, Some(p), None, Some(d)));
+            }
+        }
+        for (label, addr, _p, _s, _d) in &targets {
+            let mut ka = KeepAlive::new(addr);
+            let to = Duration::from_secs(20);
+            let nil = Uuid::nil();
+            let r1 = ka.request(&Subject::build_http(a, &Req::AddVersion { parent: nil, data: b"SECRET-OF-A".to_vec() }), to);
+            let r2 = ka.request(&Subject::build_http(b, &Req::GetChild { parent: nil }), to);
+            let r3 = ka.request(&Subject::build_http(b, &Req::AddVersion { parent: nil, data: b"first of B".to_vec() }), to);
+            let r4 = ka.request(&Subject::build_http(a, &Req::GetChild { parent: nil }), to);
+            let r5 = ka.request(&Subject::build_http(b, &Req::GetChild { parent: nil }), to);
+            cov.evaluations += 5;
+            cov.hit(format!("two-clients-on-one-connection|{}|requests-on-connection={}", if label.contains("executable") { "executable" } else { "in-process" }, ka.requests_on_current_connection));
+            let d = |r: &crate::http::HttpResp| format!("{} ({} bytes)", r.status, r.body.len());
+            let ok = r1.status == 200 && r2.status == 404 && r3.status == 200 && r4.status == 200 && r4.body == b"SECRET-OF-A" && r5.status == 200 && r5.body == b"first of B";
+            if !ok {
+                out.found.push(Found {
+                    property: "C09".into(),
+                    signature: "C09:shared connection".into(),
+                    msg: format!("{label}: clients A and B (both allowed) share one keep-alive connection. A adds its first version: {}; B asks for the child of nil: {} (alone: 404); B adds its first version: {}; A reads its first version: {}; B reads its first version: {} - a client is answered with another client's data or acts on its chain", d(&r1), d(&r2), d(&r3), d(&r4), d(&r5)),
+                    replay: json!({"origin": "c09-shared-connection", "case": 0}),
+                });
+                out.cov = cov;
+                return out;
+            }
+        }
+    }
+    // ---- one client's uploads break off twenty times in a row: another client is served as ever
+    if shard.mine(6) {
+        use crate::http::{HttpReq, CT_HISTORY, CT_SNAPSHOT};
+        use crate::subject::Kind;
+        for kind in [Kind::MEM_HTTP, Kind::SQL_HTTP] {
+            let Ok(mut subj) = Subject::new(kind, Config::default()) else { continue };
+            let (a, b) = (Uuid::new_v4(), Uuid::new_v4());
+            let _ = subj.exec(a, &Req::AddVersion { parent: Uuid::nil(), data: b"a1".to_vec() });
+            for i in 0..20 {
+                let (route, ct) = if i % 2 == 0 { ("add-version", CT_HISTORY) } else { ("add-snapshot", CT_SNAPSHOT) };
+                let mut r = HttpReq::new("POST", &format!("/v1/client/{route}/{}", Uuid::nil())).header("X-Client-Id", &a.to_string()).header("Content-Type", ct).body_chunks(vec![vec![1u8; 50], vec![2u8; 50], vec![3u8; 50]]);
+                r.fail_after = Some(1 + i % 2);
+                let _ = subj.http(&r);
+                cov.evaluations += 1;
+            }
+            let rb = subj.exec(b, &Req::AddVersion { parent: Uuid::nil(), data: b"b1".to_vec() });
+            let rb2 = match &rb {
+                Resp::AddOk { vid, .. } => subj.exec(b, &Req::AddSnapshot { vid: *vid, data: b"snapshot of b".to_vec() }),
+                o => o.clone(),
+            };
+            cov.hit(format!("after-twenty-broken-uploads-of-another-client|{}", kind.name()));
+            if !matches!(rb, Resp::AddOk { .. }) || !matches!(rb2, Resp::SnapOk) {
+                out.found.push(Found {
+                    property: "C09".into(),
+                    signature: "C09:broken uploads of another client".into(),
+                    msg: format!("[{}] after twenty uploads of client A whose body transfer broke off, client B's first AddVersion is answered {} and its AddSnapshot {} (alone: accepted / success)", kind.name(), rb.short(), rb2.short()),
+                    replay: json!({"origin": "c09-broken-uploads", "case": 0}),
+                });
+                out.cov = cov;
+                return out;
+            }
+        }
+    }
     // ---- many clients on one long-lived server: client A acts, more than a thousand other clients
     // act once each, A acts again: A is answered as if the others had not been there
     if shard.mine(2) {
